@@ -405,6 +405,9 @@ glyphLoop:
 							},
 						})
 					}
+					if len(postscriptStack) < 1 {
+						return nil, errIncomplete
+					}
 					postscriptStack = postscriptStack[:len(postscriptStack)-1]
 				case 1: // flex start (0 args)
 					flexData = flexData[:0]
